@@ -130,10 +130,13 @@ func zzWorldInit(g *Graph) string {
 	if vals["world.resultpath.bad"] == "false" {
 		for k, v := range vals {
 			if strings.HasSuffix(k, "resultpath") || strings.HasSuffix(k, "result_path") || strings.HasSuffix(k, "ResultPath") || strings.HasSuffix(k, "ResultPathFlag") {
-				if v != "" && !filepath.IsAbs(v) {
-					p := filepath.Join(root, v)
-					os.MkdirAll(filepath.Dir(p), 0755)
-					os.WriteFile(p, []byte("result"), 0644)
+				// the path as given and its trimmed spelling (some input modes trim)
+				for _, name := range []string{v, strings.TrimSpace(v)} {
+					if name != "" && !filepath.IsAbs(name) {
+						p := filepath.Join(root, name)
+						os.MkdirAll(filepath.Dir(p), 0755)
+						os.WriteFile(p, []byte("result"), 0644)
+					}
 				}
 			}
 		}
